@@ -9,8 +9,10 @@ cd /verif
 git -C /repo diff --quiet || { echo "/repo is not clean"; exit 2; }
 git -C /repo apply "$D/patch.diff" || { echo "patch does not apply"; exit 2; }
 for P in $PROPS; do
+  cp evidence/$P.json /tmp/.evidence_$P.keep 2>/dev/null   # committed evidence must come from the unchanged tree
   out=$(./check $P 2>&1); rc=$?
   echo "== $(basename $D) check=$P rc=$rc"
   echo "$out" | grep -E "^VIOLATION|^\[$P\]|broken\[" | cut -c1-400
 done
 git -C /repo checkout -- .
+for P in $PROPS; do [ -f /tmp/.evidence_$P.keep ] && mv /tmp/.evidence_$P.keep evidence/$P.json; done
